@@ -254,6 +254,9 @@ def c10(ck, F, tier):
     guarded(ck, rp.pcfg, F)
     guarded(ck, rp.store_en, F)
     guarded(ck, rp.footprint, F)
+    import rules_paren as rpar
+    ck.rule("SEP", "separators chosen by the printers are the tokens the parser expects in that locale", floor=6, exhaustive=True)
+    guarded(ck, rpar.sep_rule, F)
 
 
 def c28(ck, F, tier):
@@ -281,10 +284,13 @@ def c05(ck, F, tier):
         "Evaluating/Evaluated test dominates the Evaluating mark, every path from the mark to a return passes an Evaluated "
         "mark (must-pass-through), the Evaluating arm is the one yielding Error::CIRC and it is the only non-codec producer of "
         "Error::CIRC in the crate; Model::evaluate clears cells/support/variable stack/lambdas inside the restart loop before "
-        "any evaluate_cell, phase 2 iterates get_all_cells(); only evaluate/evaluate_cell write Model.cells. That stored values "
-        "equal the formulas' values is not decided.")
+        "any evaluate_cell, phase 2 iterates get_all_cells(); only evaluate/evaluate_cell write Model.cells; (CLIP-SHEET) the "
+        "function implementations that clip whole-row/column ranges take the extent from the range's own sheet. That stored "
+        "values equal the formulas' values is not decided.")
     ck.rule("TYPESTATE-eval", "Evaluating/Evaluated mark discipline, CIRC producer, restart clears", floor=14)
     guarded(ck, re_.typestate_eval, F)
+    ck.rule("CLIP-SHEET", "whole-row/column ranges are clipped by the extent of the range's own sheet", floor=40)
+    guarded(ck, re_.clip_sheet, F)
 
 
 def c21(ck, F, tier):
@@ -358,6 +364,10 @@ def c09(ck, F, tier):
     import rules_paren as rp_
     guarded(ck, rp_.ident_case, F)
     guarded(ck, rs_.grid_bounds, F)
+    # quoted-sheet references are part of C09's quantifier: the quoting decision of the printer against the lexer (rule of C22)
+    import rules_quote as rq
+    ck.rule("QUOTE", "characters the lexer cannot read unquoted trigger quoting (all code points by class)", floor=40, exhaustive=True)
+    guarded(ck, rq.quote_rule, F)
 
 
 def c16(ck, F, tier):
@@ -586,13 +596,19 @@ def c07(ck, F, tier):
         "metadata; (HASH-ORDER) every iteration over a HashMap/HashSet in code reachable from evaluate, set_user_input, the six "
         "structural actions, to_bytes and from_workbook (function implementations excluded) is order-insensitive by an "
         "enumerated idiom (folded with any/all/count/min/max, collected into a map/set, collected into a Vec that is sorted) "
-        "or by a single-site reason confirmed on the pinned tree. Convergence of the restart-based spill ordering is not decided.")
+        "or by a single-site reason confirmed on the pinned tree; (PAREN) the stored form of a formula parses back to the same tree, so "
+        "a reload in between re-evaluates the same formula. Convergence of the restart-based spill ordering is not decided.")
     ck.rule("WMC-volatile", "clock / random sources only in volatile function implementations", floor=3)
     ck.rule("HASH-ORDER", "hash-map iterations are order-insensitive", floor=25)
     ck.rule("DIM-UNITS", "width/height of spill extents only combine with column/row quantities", floor=2)
     guarded(ck, re_.wmc_volatile, F)
     guarded(ck, re_.hash_order, F)
     guarded(ck, re_.dim_units, F)
+    # a save-and-reload re-parses the stored text of every formula: the value is unchanged only if the tree is (PAREN cells of
+    # the internal printer, the clause of C09 that C07's "reload in between" needs)
+    import rules_paren as rp
+    ck.rule("PAREN", "child kind not producible by the grammar at that position => printer parenthesises it (stored form)", floor=400, exhaustive=True)
+    guarded(ck, rp.paren_rule, F, "PAREN", "stringify::stringify", exports=(False,))
 
 
 def c24(ck, F, tier):
